@@ -10,8 +10,12 @@ CONSTANTS
   MaxQ = 2
   MaxId = 1
   KaVals = {0}
+  XQs = {}
+  XfrIds = {}
+  XfrAll = FALSE
+  QVars = {101, 201, 301, 401}
   EndKinds = {"eof", "wfail", "stall"}
-  MaxOps = 7
+  MaxOps = 6
   Frames <- GFrames
 SPECIFICATION GenSpec
 VIEW GenView
